@@ -51,6 +51,7 @@ type envelope struct {
 	lo, hi    float64
 	failed    bool
 	nonFinite int // first day with a non-finite layer temperature (-1: none)
+	tbase     float64
 }
 
 func (e *envelope) add(vs ...float64) {
@@ -65,9 +66,17 @@ func (e *envelope) add(vs ...float64) {
 }
 
 func newEnvelope(g *hermes.GlobalVarsMain) *envelope {
-	e := &envelope{lo: math.Inf(1), hi: math.Inf(-1), nonFinite: -1}
+	e := &envelope{lo: math.Inf(1), hi: math.Inf(-1), nonFinite: -1, tbase: g.TBASE}
 	e.add(g.TSOIL[0][:g.N+1]...)
 	e.add(g.TBASE)
+	return e
+}
+
+// newEnvelopeConfigured: traced runs — the lower boundary is the CONFIGURED annual mean temperature and the start
+// profile is Init's linear profile between the first surface value and that temperature (init.go:16-20)
+func newEnvelopeConfigured(g *hermes.GlobalVarsMain, tbase float64) *envelope {
+	e := &envelope{lo: math.Inf(1), hi: math.Inf(-1), nonFinite: -1, tbase: tbase}
+	e.add(g.TSOIL[0][0], tbase)
 	return e
 }
 
@@ -79,7 +88,7 @@ func (e *envelope) check(key string, day int, g *hermes.GlobalVarsMain) {
 // checkSurf: [surf] is the surface value admissible for that day — the imposed one, or (traced runs with a
 // readable weather file) the one the weather FILE gives with a correct normalisation
 func (e *envelope) checkSurf(key string, day int, g *hermes.GlobalVarsMain, surf float64) {
-	e.add(surf, g.TBASE)
+	e.add(surf, e.tbase)
 	if e.nonFinite < 0 && !finite(g.TSOIL[0][:g.N+1]...) {
 		e.nonFinite = day
 	}
@@ -292,20 +301,23 @@ func c19TraceLine(work, line string, lineNo int, r *rng, every int) {
 	days, emitted := 0, 0
 	minBD, maxBD := math.Inf(1), math.Inf(-1)
 	var wref weatherRef
-	refDays, radMissingDays, surfFails := 0, 0, 0
+	refDays, radMissingDays, surfFails, tbaseFails := 0, 0, 0, 0
+	confT, confFrom := 8.7, "default"
+	tbaseSeen := map[uint64]float64{}
 	useRef := false
 	hermes.VerifProbe = func(stage string, zeit, subd int, wdt float64, g *hermes.GlobalVarsMain, w *hermes.WaterSharedVars, n *hermes.NitroSharedVars) {
 		switch stage {
 		case "evatra":
 			pre, havePre = *g, true
 			if env == nil {
-				env = newEnvelope(g)
+				env = newEnvelopeConfigured(g, confT)
 				for i := 0; i < g.N; i++ {
 					minBD, maxBD = math.Min(minBD, g.BD[i]), math.Max(maxBD, g.BD[i])
 				}
 				// the profile hermes.Init left (init.go:16-20)
 				emit(jobj{"k": "init", "line": lineNo, "n": g.N, "tmin": hx(g.TMIN[g.ITAG-1]), "tmax": hx(g.TMAX[g.ITAG-1]),
-					"tbase": hx(g.TBASE), "tsoil0": hxs(g.TSOIL[0][:g.N+1]),
+					// Init's profile runs down to the CONFIGURED annual mean temperature (config.go:120)
+					"tbase": hx(confT), "tbase_from": confFrom, "g_tbase": hx(g.TBASE), "tsoil0": hxs(g.TSOIL[0][:g.N+1]),
 					// what Input made of the soil file (input.go:277): the density of every 10-cm layer, and the horizons
 					"bd": hxs(g.BD[:g.N]), "azho": g.AZHO, "ukt": g.UKT[:g.AZHO+1], "ld": g.LD[:g.AZHO], "bulk": hxs(g.BULK[:g.AZHO]), "stein": hxs(g.STEIN[:g.AZHO])})
 			}
@@ -325,6 +337,15 @@ func c19TraceLine(work, line string, lineNo int, r *rng, every int) {
 			if every <= 1 || r.intn(every) == 0 || days <= 2 {
 				emit(c)
 				emitted++
+			}
+			// the lower boundary is the configured annual mean temperature, on every day
+			tbaseSeen[math.Float64bits(g.TBASE)] = g.TBASE
+			if !(g.TBASE == confT && g.TD[n] == confT && g.TSOIL[0][n] == confT) {
+				if tbaseFails == 0 {
+					oracleFail("lower-boundary:traced-line-%d day=%d configured AnnualAverageTemperature=%v (%s) but TBASE=%v TD[N]=%v TSOIL[0][N]=%v",
+						lineNo, days, confT, confFrom, g.TBASE, g.TD[n], g.TSOIL[0][n])
+				}
+				tbaseFails++
 			}
 			// the surface value a correct weather normalisation allows on that day (from the weather FILE)
 			surf := g.TSOIL[1][0]
@@ -362,6 +383,7 @@ func c19TraceLine(work, line string, lineNo int, r *rng, every int) {
 			runArgs = append(runArgs, t)
 		}
 	}
+	confT, confFrom = configuredTBase(work, runArgs)
 	if useRef {
 		wref = loadWeatherRef(work, runArgs, 999.9)
 		if wref == nil {
@@ -371,7 +393,13 @@ func c19TraceLine(work, line string, lineNo int, r *rng, every int) {
 	res := runProject(work, runArgs)
 	hermes.VerifProbe = nil
 	o := jobj{"k": "run", "line": lineNo, "success": res.Success, "err": res.Err, "days": days, "emitted": emitted,
-		"weather_ref_days": refDays, "radiation_missing_days": radMissingDays, "surface_mismatch_days": surfFails}
+		"weather_ref_days": refDays, "radiation_missing_days": radMissingDays, "surface_mismatch_days": surfFails,
+		"tbase_configured": hx(confT), "tbase_configured_value": confT, "tbase_from": confFrom, "tbase_mismatch_days": tbaseFails}
+	seen := []string{}
+	for _, v := range tbaseSeen {
+		seen = append(seen, hx(v))
+	}
+	o["tbase_seen"] = seen
 	if env != nil && days > 0 {
 		o["lo"], o["hi"], o["failed"], o["minbd"], o["maxbd"] = env.lo, env.hi, env.failed, minBD, maxBD
 	}
